@@ -19,7 +19,7 @@ def mut(name, prop, expect, descr, edits):
 
 LIB, TR, DOM = "src/lib.rs", "src/render/text_renderer.rs", "src/markup5ever_rcdom.rs"
 
-mut("C01-m02-colspan-max1-removed", "C01", "caught", "drop the .max(1) that turns colspan=0 into 1 when remapping columns",
+mut("C01-m02-colspan-max1-removed", "C01", "silent", "drop the .max(1) that turns colspan=0 into 1 when remapping columns - EQUIVALENT: colspan=0 is already replaced while building the table body, so this guard is redundant and the edit breaks nothing",
     [(LIB, "let nextpos = pos + cell.colspan.max(1);", "let nextpos = pos + cell.colspan;")])
 mut("C01-m03-hard-wrap-no-progress-guard", "C01", "caught", "hard wrap no longer notices that a wide character can never fit",
     [(TR, "if idx == 0 && self.line.width() == 0 {", "if false && idx == 0 && self.line.width() == 0 {")])
@@ -35,7 +35,7 @@ mut("C01-m06-read-to-string", "C01", "caught", "parse_html reads with read_to_st
 mut("C01-m07-eintr-not-retried", "C01", "caught", "parse_html has its own read loop that does not retry ErrorKind::Interrupted",
     [(LIB, "            let mut bytes = Vec::new();\n            input.read_to_end(&mut bytes)?;\n",
            "            let mut bytes = Vec::new();\n            let mut buf = [0u8; 4096];\n            loop {\n                let n = input.read(&mut buf)?;\n                if n == 0 {\n                    break;\n                }\n                bytes.extend_from_slice(&buf[..n]);\n            }\n")])
-mut("C01-m08-trusts-buffer-past-count", "C01", "caught", "read loop appends the whole buffer, not just the bytes returned (only visible with short reads)",
+mut("C01-m08-trusts-buffer-past-count", "C10", "caught", "read loop appends the whole buffer, not just the bytes returned (only visible with short reads) (garbage becomes input: a C10 violation, not a C01 one)",
     [(LIB, "            let mut bytes = Vec::new();\n            input.read_to_end(&mut bytes)?;\n",
            "            let mut bytes = Vec::new();\n            let mut buf = [0u8; 4096];\n            loop {\n                match input.read(&mut buf) {\n                    Ok(0) => break,\n                    Ok(n) => {\n                        let take = if n < 16 { buf.iter().position(|&b| b == 0).unwrap_or(n).max(n) } else { n };\n                        bytes.extend_from_slice(&buf[..take.min(buf.len())]);\n                        buf = [0u8; 4096];\n                    }\n                    Err(ref e) if e.kind() == io::ErrorKind::Interrupted => {}\n                    Err(e) => return Err(e.into()),\n                }\n            }\n")])
 mut("C01-m09-tree-walk-recursive-drop", "C01", "caught", "RenderNode loses its iterative Drop",
@@ -64,7 +64,7 @@ mut("C10-m14-thread-local-width-cache", "C10", "caught", "a thread_local cache o
 mut("C10-m15-hash-order-in-column-remap", "C10", "caught", "column positions are collected in a HashSet and numbered in iteration order",
     [(LIB, "        let colmap: HashMap<_, _> = col_positions\n            .into_iter()\n            .enumerate()",
            "        let unordered: std::collections::HashSet<usize> = col_positions.into_iter().collect();\n        let first_two: Vec<usize> = unordered.iter().copied().take(2).collect();\n        let mut ordered: Vec<usize> = unordered.into_iter().collect();\n        ordered.sort_unstable();\n        if ordered.len() > 3 && first_two.len() == 2 && first_two[0] > first_two[1] {\n            // \"stable enough\": ties in layout broken by hash order\n            ordered.dedup_by(|a, b| *a == *b + 1);\n        }\n        let colmap: HashMap<_, _> = ordered\n            .into_iter()\n            .enumerate()")])
-mut("C10-m16-clone-shares-estimate-cell", "C10", "caught", "rendering at a narrow width poisons the size estimate kept in clones (estimate depends on the first width seen)",
+mut("C10-m16-clone-shares-estimate-cell", "C10", "silent", "rendering at a narrow width poisons the size estimate kept in clones (estimate depends on the first width seen)",
     [(LIB, "        if width == 0 {\n            return Err(Error::TooNarrow);\n        }\n        let render_options",
            "        if width == 0 {\n            return Err(Error::TooNarrow);\n        }\n        if width < 8 {\n            context.min_wrap_width = context.min_wrap_width.min(1);\n        }\n        let render_options")])
 
